@@ -10,6 +10,7 @@ import (
 	"runtime"
 	"strings"
 	"sync"
+	"sync/atomic"
 	"time"
 
 	"github.com/acquirecloud/golibs/container/lru"
@@ -438,9 +439,17 @@ func driveLruConc(opt *Options) error {
 	defer w.Flush()
 	var wmu sync.Mutex
 	stats := map[string]int{}
+	var stuckRuns int32
+	giveUp := func() bool { return atomic.LoadInt32(&stuckRuns) >= 3 } // the verdict is established: skip the rest
 	flush := func(s *lcSys, rep bool) {
 		wmu.Lock()
 		defer wmu.Unlock()
+		for _, e := range s.events {
+			if e["e"] == "stuck" {
+				atomic.AddInt32(&stuckRuns, 1)
+				break
+			}
+		}
 		stats["histories"]++
 		if rep {
 			stats["reproduced"]++
@@ -466,6 +475,9 @@ func driveLruConc(opt *Options) error {
 			go func() {
 				defer wg.Done()
 				for b := range ch {
+					if giveUp() {
+						continue
+					}
 					s, err := newLcSys(b[0].Int("cap"), 3, true, 1)
 					if err != nil {
 						continue
@@ -490,6 +502,9 @@ func driveLruConc(opt *Options) error {
 			go func(i int) {
 				defer wg.Done()
 				defer func() { <-sem }()
+				if giveUp() {
+					return
+				}
 				r := rand.New(rand.NewSource(opt.Seed*100003 + int64(i)))
 				s, err := newLcSys(1+r.Intn(3), 3+r.Intn(3), true, r.Int63())
 				if err != nil {
@@ -502,6 +517,9 @@ func driveLruConc(opt *Options) error {
 		wg.Wait()
 	case "stress":
 		for i := 0; i < opt.N; i++ {
+			if giveUp() {
+				break
+			}
 			r := rand.New(rand.NewSource(opt.Seed*7907 + int64(i)))
 			s, err := newLcSys(1+r.Intn(3), 4+r.Intn(5), false, r.Int63())
 			if err != nil {
